@@ -14,10 +14,13 @@
 #include "dump.h"
 
 
-#define NBODIES 6
+#define NBODIES 7
 static const char *BODYN[NBODIES] = { "P1 read/query/write/free", "P2 build/set/merge/free", "P3 layered read with options", "P4 malformed file",
                                        "P5 layered read on the defaults (even instance: drop-ins only, no configuration name; odd: two directories)",
-                                       "P6 write that fails (target name is a directory), then a write that succeeds" };
+                                       "P6 write that fails (target name is a directory), then a write that succeeds",
+                                       "P7 reads under a process-wide permission requirement set before the threads start (even instance: directory mode 0755, accepted; odd: 0700, refused)" };
+/* the harness calls this before any thread exists, when a P7 body takes part (the setter is documented as process-wide) */
+#define B_REQUIRE_PERMISSIONS() econf_requirePermissions(0444, 0005)
 
 typedef struct { int body; int instance; char dir[300]; sbuf out; } tctx;
 /* per-instance parameters: shared static state inside the library only becomes visible when the threads pass different data */
@@ -79,6 +82,12 @@ static void body_prepare(tctx *t, int instance)
   } else if (t->body == 5) {
     char cmd[800]; snprintf(cmd, sizeof cmd, "mkdir -p %s/blocked.out", t->dir);
     if (system(cmd) != 0) mc_die("mkdir");
+  } else if (t->body == 6) {
+    snprintf(p, sizeof p, "%s/perm", t->dir); mkdir(p, 0755);
+    sbuf c = {0};
+    sb_printf(&c, "who=%s\n[S]\nk=p7-%s\n", tag, tag); b_mkfile(t->dir, "perm/p7.conf", c.s); sb_reset(&c);
+    sb_printf(&c, "second=%s\n", tag); b_mkfile(t->dir, "perm/q7.conf", c.s); sb_free(&c);
+    if (chmod(p, v ? 0700 : 0755) != 0) mc_die("chmod");
   } else if (t->body == 3) {
     sbuf c = {0};
     sb_printf(&c, "ok=%s\n[good]\nk=1\n[broken %s\nnever=1\n", tag, tag); b_mkfile(t->dir, "bad.conf", c.s); sb_free(&c);
@@ -175,6 +184,14 @@ static void body_run(tctx *t)
     snprintf(p, sizeof p, "%s/p6.out", t->dir);
     size_t n = 0; char *w = mc_read_file(p, &n); if (w) { sb_put_esc(&t->out, w, n); free(w); } sb_putc(&t->out, '\n');
     { struct stat sb; if (stat(p, &sb) == 0) sb_printf(&t->out, "mode of the written file %o\n", (unsigned)(sb.st_mode & 07777)); }
+    break; }
+  case 6: {
+    snprintf(p, sizeof p, "%s/perm/p7.conf", t->dir);
+    LIB(rc = econf_readFile(&kf, p, "=", "#")); sb_printf(&t->out, "read below a directory of mode %s rc=%d\n", (t->instance & 1) ? "0700" : "0755", (int)rc);
+    if (!rc) b_dump(t, kf);
+    snprintf(p, sizeof p, "%s/perm/q7.conf", t->dir);
+    LIB(rc = econf_readFile(&kf2, p, "=", "#")); sb_printf(&t->out, "second file of the same directory rc=%d\n", (int)rc);
+    if (!rc) b_dump(t, kf2);
     break; }
   default: {
     snprintf(p, sizeof p, "%s/bad.conf", t->dir);
